@@ -114,7 +114,9 @@ class CHECK(vlib.Check):
                 "derivative matcher with anchors) and compared with the real libc on every generated pattern; regex "
                 "strings outside that model (intervals {..}, [: :] classes, \\b \\B \\< \\> \\` \\' and "
                 "back-references) are marked U and only their regex-independent observables are compared. "
-                "Not modelled: ToString, MakeRegexCaseInsensitive, PathMatcher/SegmentedStringMatcher glue.")
+                "The glue is modelled too: SegmentedStringMatcher (SetPattern/Match/IsPatternUnique) and PathMatcher "
+                "(PutPathString + MatchesPath without filter, GetPathDepth). "
+                "Not modelled: ToString, MakeRegexCaseInsensitive, PathMatcher with query filters, NodePathMatcher traversal (C05).")
     premises = ["engine_is_ere: libc regcomp(REG_EXTENDED)/regexec agree with Pat/Ere.v (ere_compile/ere_exec) on the regex "
                 "strings SetPattern produces (exercised by every correspondence case; a premise of the theorems)",
                 "C locale, NUL-free strings; memory safety of the C++ observed by ASan/UBSan in the harness only"]
@@ -284,6 +286,40 @@ class CHECK(vlib.Check):
             for r in [rng.choice(reps) for _ in range(rng.choice([3, 4, 5]))]:
                 ops += [rep_op(*r)] + rng.sample(probe, 3)
             case("reuse-pairs", ops)
+        # ---- 8. the glue around StringMatcher: SegmentedStringMatcher and PathMatcher (one pooled matcher per '/'-separated clause)
+        def clause():
+            r = rng.random()
+            if r < 0.25: return "*"
+            if r < 0.5: return rng.choice(["a", "b", "ab", "x.y", "5", "a\\*b", ""])
+            if r < 0.6: return rng.choice(["<5-10>", "<3>", "~a", "~<3>", "`a.*", "(", "[b-a]"])
+            return gen_valid(rng, 1, False)
+        def piece(cl):
+            r = rng.random()
+            if r < 0.5:
+                return "".join(rng.choice([c, c, "a", ""]) if c not in "*?" else rng.choice(["", "a", "xy"]) for c in cl if c not in "[]()\\~|,<>`")
+            return rng.choice(["a", "b", "ab", "7", "", "x.y", "a*b", "abc"])
+        for _ in range(400 if quick else 6000):
+            cls = [clause() for _ in range(rng.choice([1, 2, 2, 3, 4]))]
+            pat = "/".join(cls)
+            r = rng.random()
+            if r < 0.15: pat = "/" + pat
+            elif r < 0.25: pat = pat + "/"
+            elif r < 0.3: pat = "~" + pat
+            ops = []
+            for _ in range(4):
+                ps = [piece(c) for c in cls]
+                r = rng.random()
+                if r < 0.15: ps = ps[:-1]
+                elif r < 0.3: ps = ps + [rng.choice(["a", "", "x"])]
+                subj = "/".join(ps)
+                r = rng.random()
+                if r < 0.2: subj = "/" + subj
+                elif r < 0.3: subj = subj + "/"
+                elif r < 0.35: subj = subj.replace("/", "//", 1)
+                ops.append("sg:%s:%d:%d:%s:?" % (hx(pat), rng.choice([1, 1, 1, 0]), rng.choice([0, 0, 1]), hx(subj)))
+                if pat:
+                    ops.append("pm:%s:%s:?" % (hx(pat), hx(subj)))
+            case("glue", ops)
         return self._mark(out)
 
     def _mark(self, out):
